@@ -130,6 +130,72 @@ func registerIntrinsics(e *Engine) {
 		}
 		return nil, false // Go body: special cases are plain code; atan is stubbed
 	}
+	maxmin := func(isMax bool) intrinsic {
+		return func(p *Path, _ *frame, _ *ssa.Function, a []value) (value, bool) {
+			x, y := a[0].(*Term), a[1].(*Term)
+			tc := &p.tc
+			inf := ConstF64(math.Inf(1))
+			if !isMax {
+				inf = ConstF64(math.Inf(-1))
+			}
+			isInf := func(t *Term) *Term {
+				if isMax {
+					return tc.Bin(OFLt, ConstF64(math.MaxFloat64), t)
+				}
+				return tc.Bin(OFLt, t, ConstF64(-math.MaxFloat64))
+			}
+			sign := func(t *Term) *Term {
+				return tc.Eq(tc.Extract(tc.apply(OFPToBits, BV(64), 0, t), 63, 63), Const(BV(1), 1))
+			}
+			var zeros, gen *Term
+			if isMax {
+				zeros = tc.Ite(sign(x), y, x)
+				gen = tc.Ite(tc.Bin(OFLt, y, x), x, y)
+			} else {
+				zeros = tc.Ite(sign(x), x, y)
+				gen = tc.Ite(tc.Bin(OFLt, x, y), x, y)
+			}
+			bothZero := tc.And(tc.Bin(OFEq, x, ConstF64(0)), tc.Bin(OFEq, y, ConstF64(0)))
+			r := tc.Ite(bothZero, zeros, gen)
+			r = tc.Ite(tc.Or(tc.Un(OFIsNaN, x), tc.Un(OFIsNaN, y)), ConstF64(math.NaN()), r)
+			r = tc.Ite(tc.Or(isInf(x), isInf(y)), inf, r)
+			return r, true
+		}
+	}
+	in["math.Max"] = maxmin(true)
+	in["math.Min"] = maxmin(false)
+	in["math.archMax"] = maxmin(true)
+	in["math.archMin"] = maxmin(false)
+	// math.Mod(x, y) for a constant power-of-two y is exact in IEEE arithmetic:
+	// x - y*trunc(x/y) involves no rounding; sign of a zero result follows x.
+	in["math.Mod"] = func(p *Path, _ *frame, _ *ssa.Function, a []value) (value, bool) {
+		x := a[0].(*Term)
+		y, ok := cterm(a[1])
+		if xc, okx := cterm(a[0]); okx && ok {
+			return ConstF64(math.Mod(xc.F64(), y.F64())), true
+		}
+		if !ok {
+			p.stub("math.Mod(general)")
+			return p.havocF64("math.Mod"), true
+		}
+		yf := y.F64()
+		fr, _ := math.Frexp(yf)
+		if !(yf > 0) || fr != 0.5 || math.IsInf(yf, 0) {
+			p.stub("math.Mod(general)")
+			return p.havocF64("math.Mod"), true
+		}
+		tc := &p.tc
+		q := tc.FRound(tc.Bin(OFMul, x, ConstF64(1/yf)), 1)
+		d := tc.Bin(OFSub, x, tc.Bin(OFMul, ConstF64(yf), q))
+		bits := tc.apply(OFPToBits, BV(64), 0, x)
+		neg := tc.Eq(tc.Extract(bits, 63, 63), Const(BV(1), 1))
+		zero := tc.Ite(neg, ConstF64(math.Copysign(0, -1)), ConstF64(0))
+		d = tc.Ite(tc.Bin(OFEq, d, ConstF64(0)), zero, d)
+		small := tc.Bin(OFLt, tc.Un(OFAbs, x), ConstF64(yf))
+		r := tc.Ite(small, x, d)
+		bad := tc.Or(tc.Un(OFIsNaN, x), tc.Un(OFIsInf, x))
+		return tc.Ite(bad, ConstF64(math.NaN()), r), true
+	}
 	in["math/rand.Float64"] = func(p *Path, _ *frame, _ *ssa.Function, a []value) (value, bool) {
 		p.stub("math/rand.Float64")
 		f := p.havocF64("rand.Float64")
@@ -359,8 +425,9 @@ func registerIntrinsics(e *Engine) {
 		return tuple{f, tTrue}, true
 	}
 
-	// ---- regexp ----
+	// ---- regexp / reflect ----
 	registerRegexp(in)
+	registerReflect(in)
 
 	// ---- time / runtime ----
 	in["time.Now"] = func(p *Path, _ *frame, fn *ssa.Function, a []value) (value, bool) {
@@ -603,17 +670,7 @@ func registerVerifPrims(in map[string]intrinsic, pkg string) {
 		v := p.tc.Var(BV(64), fmt.Sprintf("choose_%d", len(p.nondets)))
 		p.nondets = append(p.nondets, NondetRec{Kind: "int", T: v})
 		p.addPC(p.tc.Bin(OULt, v, Const(BV(64), uint64(n))))
-		// the current model may violate the new constraint
-		if p.ev.Eval(v) >= uint64(n) {
-			r, m := p.check(tTrue)
-			if r != "sat" {
-				panic(abortPath{"infeasible", "verifChoose"})
-			}
-			p.model = m
-			p.newEval()
-		}
-		c := p.concretize(v, "verifChoose")
-		return ConstInt(64, int64(c)), true
+		return ConstInt(64, int64(p.chooseValue(v, uint64(n)))), true
 	}
 	in[pkg+".verifAssume"] = func(p *Path, _ *frame, _ *ssa.Function, a []value) (value, bool) {
 		c := a[0].(*Term)
@@ -994,11 +1051,6 @@ func intSlices(x [][]int) value {
 		out[i] = intSlice(v)
 	}
 	return out
-}
-
-func (p *Path) callNativeMethod(m *nativeMethod, args []value) value {
-	p.unsupported("method " + m.name + " on opaque host object")
-	return nil
 }
 
 var _ = strings.Contains
